@@ -183,7 +183,14 @@ def _replay(chk, beh, idx, nnx, mods, vts):
   args = [objs[a] for a in beh['args']]
   fn = make_fn(nnx, mods, vts, script, ret)
   if kind == 'jit':
-    call = nnx.jit(fn)
+    if len(beh['args']) == 2 and idx % 2 == 1:      # rendering: the second argument is passed by keyword
+      jkw = nnx.jit(lambda a, *, second: fn(a, second))
+      call = lambda a, b: jkw(a, second=b)
+    elif len(beh['args']) == 1 and idx % 2 == 1:    # rendering: the only argument is passed by keyword
+      jkw = nnx.jit(lambda *, only: fn(only))
+      call = lambda a: jkw(only=a)
+    else:
+      call = nnx.jit(fn)
   elif kind == 'remat':
     call = nnx.remat(fn)
   elif kind == 'cached_partial':
@@ -430,6 +437,49 @@ def main(chk):
     bad = overlapped(name, wrap)
     if bad:
       chk.violation(f'C04:two-threads|{name}|', f'two threads overlapping inside nnx.{name}, each with its own objects: {bad}', {})
+  # ---- registered pytrees with three and more children (declaration order is not key order) and lists of 12 Variables inside the
+  # objects handed to the transforms; nnx.jit also with StateSharding prefixes (several filter groups are merged back)
+  import collections as _c
+  import jax
+  from jax.sharding import Mesh, NamedSharding, PartitionSpec
+  Stats = _c.namedtuple('Stats', ['mean', 'var', 'count'])      # sorted: count, mean, var - a 3-cycle
+
+  class WideM(nnx.Module):
+    def __init__(self):
+      self.stats = Stats(mean=nnx.BatchStat(jnp.asarray(1.0)), var=nnx.Param(jnp.asarray(20.0)), count=nnx.Variable(jnp.asarray(300.0)))
+      self.layers = [nnx.Param(jnp.asarray(float(i))) for i in range(12)]
+      self.extra = nnx.BatchStat(jnp.asarray(7.0))
+
+  def wide_step(m, x):
+    m.stats.mean.value = m.stats.mean.value + x
+    m.stats.count.value = m.stats.count.value * 2
+    for i, p in enumerate(m.layers):
+      p.value = p.value + 100.0 * i
+    return m.stats.var.value + m.stats.count.value + sum(p.value * (i + 1) for i, p in enumerate(m.layers))
+
+  def describe(m):
+    return ([(f, type(getattr(m.stats, f)).__name__, float(getattr(m.stats, f).value)) for f in Stats._fields],
+            [float(p.value) for p in m.layers], float(m.extra.value))
+  em = WideM()
+  e_out = [float(wide_step(em, jnp.asarray(1.0))) for _ in range(2)]
+  e_desc = describe(em)
+  sh = NamedSharding(Mesh(np.array(jax.devices()[:1]), ('d',)), PartitionSpec())
+  wraps = {'jit': nnx.jit, 'remat': nnx.remat,
+           'jit+StateSharding': lambda f: nnx.jit(f, in_shardings=(nnx.StateSharding({nnx.Param: sh, nnx.BatchStat: sh, ...: sh}), None)),
+           'cond': lambda f: (lambda m, x: nnx.cond(jnp.asarray(True), f, lambda mm, xx: xx * 0.0, m, x)),
+           'fori_loop': lambda f: (lambda m, x: (nnx.fori_loop(0, 1, lambda i, c: (f(c[0], c[1]), c)[1], (m, x)), jnp.asarray(0.0))[1])}
+  for name, wrap in wraps.items():
+    key = f'C04:wide-objects|{name}|'
+    chk.count(key)
+    try:
+      m = WideM()
+      f = wrap(wide_step)
+      outs = [float(f(m, jnp.asarray(1.0))) for _ in range(2)]
+    except Exception as e:
+      chk.violation(key, f'raised {type(e).__name__}: {str(e)[:200]}', {})
+      continue
+    if describe(m) != e_desc or (name != 'fori_loop' and outs != e_out):
+      chk.violation(key, f'under nnx.{name}: returned {outs}, object {describe(m)}; eager: {e_out}, {e_desc}', {})
   chk.finish(rule=('object graphs (<= 4 objects + created ones, sharing / cycles / containers), 1-2 arguments (the second may alias into the '
                    'first), edit scripts of <= 3 path-addressed ops, transform in {jit, remat, cond, switch, while_loop, fori_loop, '
                    'cached_partial, eager}, trip counts 1-2, 2 consecutive calls of the same transformed function; from tlc -simulate'),
